@@ -229,7 +229,23 @@ def converter_fn(name):
 
 
 def reap():
-    """The multiprocessing converter leaves its Pool open: stop the worker processes it forked."""
+    """The multiprocessing converter never closes its Pool.  When the call returns, the Pool is garbage and CPython's finalizer stops
+    its workers; when an exception travels out of the call, the traceback keeps the Pool alive.  Pools are therefore terminated
+    *through their own API* (killing a worker that waits for a task leaves the task queue's lock held and makes the Pool's finalizer
+    block for ever); processes that are left after that are terminated as a last resort."""
+    import gc
+    import multiprocessing.pool
+    for obj in gc.get_objects():
+        try:
+            is_pool = isinstance(obj, multiprocessing.pool.Pool)
+        except ReferenceError:
+            continue
+        if is_pool:
+            try:
+                obj.terminate()
+                obj.join()
+            except Exception:  # noqa - already terminated
+                pass
     for p in multiprocessing.active_children():
         p.terminate()
     for p in multiprocessing.active_children():
@@ -253,6 +269,9 @@ def guarded(fn, limit_s=120):
         signal.setitimer(signal.ITIMER_REAL, 0)
         signal.signal(signal.SIGALRM, old)
         reap()
+        leaked = len(multiprocessing.active_children())
+        if leaked:
+            raise HarnessError('%d worker processes could not be stopped' % leaked)
 
 
 def read_tree(root):
@@ -310,7 +329,7 @@ def check(case, cc):
     cc.cls('jobs>1', any(j > 1 for j in case['jobs']))
     cc.cls('jobs>files', any(j > len(files) for j in case['jobs']))
     cc.cls('channel-request', bool(case['channels']))
-    cc.cls('stem-shared-by-two-inputs', len(set(os.path.splitext(n)[0].lower() for n in names)) < len(names))
+    cc.cls('stem-shared-by-two-inputs', len(set(os.path.splitext(n)[0] for n in names)) < len(names))
     for f in files:
         if f['kind'] == 'damaged':
             cc.cls('damage:' + f['damage']['op'])
